@@ -44,6 +44,11 @@ def parse_texts():
                 '123456789012345678901234567890', '0.1', '0.30000000000000004', '1e22', '1e23', '9007199254740993', '2147483647', '2147483648', '-2147483648', '-2147483649',
                 '1E+2', '1e-0', '0e0', '0.000001', '1.5e-7', '123.456e+78', '5e-324', '1e-400', '99999999999999999999e-20', '4294967296', '0.1e1', '1.0', '-1.5e3']:
         T.append(S(lit)); T.append(b'[' + S(lit) + b']'); T.append(b'{"n":' + S(lit) + b'}')
+    # exponents that do not fit into 16 / 32 / 64 bits (the value is 0 or infinity whatever the exponent is congruent to)
+    for ex in (2 ** 32, 2 ** 32 + 1, 2 ** 32 + 22, 2 ** 32 - 3, 2 ** 31, 2 ** 31 + 1, 2 ** 63, 2 ** 64, 2 ** 64 + 5, 10 ** 10, 65536, 65541, 32773, 3 * 2 ** 32 + 2):
+        for mant in (b'1', b'12.5', b'-7', b'2'):
+            for sg in (b'', b'-', b'+'):
+                T.append(mant + b'e' + sg + S(str(ex))); T.append(b'[' + mant + b'E' + sg + S(str(ex)) + b']')
     # plain decimals with many fraction digits / trailing zeros (few significant digits)
     for k in range(14, 36):
         T.append(b'0.' + b'0' * k + b'1'); T.append(b'0.' + b'0' * k + b'123456789012345'); T.append(b'-0.' + b'0' * k + b'7')
